@@ -9,7 +9,7 @@ import glob
 import time
 import hashlib
 from .mir import parse_dump, find_matching, split_top
-from .types import strip_generics, parse_type
+from .rtypes import strip_generics, parse_type
 
 REPO = os.environ.get('VERIF_REPO', '/repo')
 BUILD = os.environ.get('VERIF_BUILD', '/verif/.build')
